@@ -3,6 +3,8 @@ use crate::{ansi::parse_next_number, EngineResult, Palette, ParserError, Positio
 /// Largest picture (in pixels, each direction) the decoder builds: raster attributes, repeat counts and cursor positions
 /// beyond it are an `InvalidPictureSize` error instead of an allocation of that size.
 pub const MAX_SIXEL_SIZE: i32 = 4096;
+/// Number of colour registers a sixel stream can define (a definition grows the palette up to the register it names).
+pub const MAX_SIXEL_COLORS: u32 = 4096;
 
 #[derive(Clone, Debug, Copy)]
 pub enum SixelState {
@@ -108,7 +110,7 @@ impl SixelParser {
                         self.current_sixel_color = *color as u32;
                     }
                     if self.parsed_numbers.len() > 1 {
-                        if self.parsed_numbers.len() != 5 {
+                        if self.parsed_numbers.len() != 5 || self.current_sixel_color >= MAX_SIXEL_COLORS {
                             return Err(ParserError::InvalidColorInSixelSequence.into());
                         }
 
